@@ -28,7 +28,7 @@ structure VOps (V α : Type) where
 
 section power
 
-variable {V α : Type} [Zero α] [Mul α] [Div α] [LT α] [DecidableLT α]
+variable {V α : Type} [Zero α] [Mul α] [Div α] [LE α] [DecidableLE α]
 
 /-- the `for i in range(maxiter)` loop of `power_iteration`; `mu` is `none` while unbound:
 
@@ -36,13 +36,17 @@ variable {V α : Type} [Zero α] [Mul α] [Div α] [LT α] [DecidableLT α]
         normAv = norm(Av)
         if normAv == 0.0: mu = 0.0; v = Av; break
         mu = sum(v.conj() * Av) / norm(v) ** 2
-        v = Av / normAv                                                          -/
+        v = Av / normAv
+
+    The exit test `normAv == 0.0` is written `normAv ≤ 0 ∧ 0 ≤ normAv`: at `Float` both comparisons are the
+    IEEE ones (false for NaN, true for `±0.0`), exactly like `==`; over an ordered field it is `normAv = 0`.
+    (Round 1 wrote `¬ 0 < n ∧ ¬ n < 0`, which is *true* for a NaN norm, where the code does not exit.) -/
 def powerLoop (ops : VOps V α) : Nat → Option α → V → Option α × V
   | 0, mu, v => (mu, v)
   | k + 1, _, v =>
     let Av := ops.apply v
     let nAv := ops.norm Av
-    if ¬ (0 < nAv) ∧ ¬ (nAv < 0) then (some 0, Av)
+    if nAv ≤ 0 ∧ 0 ≤ nAv then (some 0, Av)
     else powerLoop ops k (some (ops.inner v Av / (ops.norm v * ops.norm v))) (ops.sdiv Av nAv)
 
 /-- `power_iteration(A, maxiter, key)` given the random start `v0` drawn from the key.
